@@ -639,7 +639,7 @@ func (f *Frame) enterLoop(l *Loop, st *State) *State {
 	env.loop = l
 	var invs []*Clause
 	if f.contract != nil {
-		invs = f.contract.LoopInv[l.ord]
+		invs = f.loopInvs(l.ord)
 	}
 	for _, c := range invs {
 		t, err := env.formula(c.Expr)
@@ -715,7 +715,7 @@ func (f *Frame) backEdge(l *Loop, st *State, cond *Term) {
 	env.loop = l
 	var invs []*Clause
 	if f.contract != nil {
-		invs = f.contract.LoopInv[l.ord]
+		invs = f.loopInvs(l.ord)
 	}
 	for _, c := range invs {
 		t, err := env.formula(c.Expr)
@@ -1791,4 +1791,17 @@ func fnrefTerm(fn *ssa.Function) *Term {
 	t := uf(name, sortInt)
 	addAxiom("fnref_nonnil:"+name, tGt(t, tInt(0)), name)
 	return t
+}
+
+// loopInvs: the invariants of loop n that apply in this run - invariants that serve only the no-panic sweep (tagged
+// [C20] and nothing else) are neither checked nor assumed outside it.
+func (f *Frame) loopInvs(n int) []*Clause {
+	var out []*Clause
+	for _, c := range f.contract.LoopInv[n] {
+		if !f.root.safety && len(c.Props) == 1 && c.Props[0] == "C20" {
+			continue
+		}
+		out = append(out, c)
+	}
+	return out
 }
